@@ -117,7 +117,8 @@ def gdb_site(vh, driver, seed, tier, case, env, extra_args=None):
     return site, txt[-5000:]
 
 
-def record_incidents(out, merged, driver, vh_by_flavour, seed, tier, extra_args=None, env_extra=None):
+def record_incidents(out, merged, driver, vh_by_flavour, seed, tier, extra_args=None, env_extra=None, key_driver=None, extra_witness=None):
+    kd = key_driver or driver
     for fl, res in merged.items():
         for inc in res.incidents:
             kind = inc["kind"]
@@ -128,7 +129,7 @@ def record_incidents(out, merged, driver, vh_by_flavour, seed, tier, extra_args=
                 site = crash_site_from_stderr(inc.get("stderr", "") or "")
                 out.infra.append("%s/%s process failed outside a case rc=%s %s: %s" % (driver, fl, inc["rc"], site or "", (inc.get("stderr") or "")[-800:]))
             elif kind == "hang":
-                key = "%s:hang:%s" % (out.pid, driver)
+                key = "%s:hang:%s" % (out.pid, kd)
                 out.add_violation(key, dict(driver=driver, flavour=fl, case=inc["case"], monitor="watchdog", detail="case did not finish within the watchdog twice; stderr tail: " + (inc.get("stderr") or "")[-1500:]))
             elif kind == "crash":
                 sig = SIGNAMES.get(inc["rc"], "rc%s" % inc["rc"])
@@ -139,8 +140,8 @@ def record_incidents(out, merged, driver, vh_by_flavour, seed, tier, extra_args=
                     site, bt = gdb_site(vh_by_flavour[fl], driver, seed, tier, inc["case"], env, extra_args)
                 if site is None:
                     site = sanitizer_site(inc.get("stderr", "") or "") or "unknown"
-                key = "%s:crash:%s:%s:%s" % (out.pid, driver, sig, site)
-                out.add_violation(key, dict(driver=driver, flavour=fl, case=inc["case"], monitor="crash",
+                key = "%s:crash:%s:%s:%s" % (out.pid, kd, sig, site)
+                out.add_violation(key, dict(driver=driver, flavour=fl, case=inc["case"], monitor="crash", **(extra_witness or {}),
                                              detail="process died with %s in %s; stderr tail:\n%s\n%s" % (sig, site, (inc.get("stderr") or "")[-2500:], bt[-2500:])))
 
 
